@@ -89,6 +89,16 @@ class Impl:
         b = self.built
 
         def fn():
+            if getattr(self, "mixin", False):
+                from statemachine import registry
+                from statemachine.mixins import MachineMixin
+                registry._initialized = True   # not a django project: no module autodiscovery
+                registry.register(b.cls)
+                ns = {"state_machine_name": f"{b.cls.__module__}.{b.cls.__name__}",
+                      "bind_events_as_methods": True, "_prov": "model", "state": self.stored}
+                self.model = type("MixModel", (MachineMixin,), ns)()
+                self.sm = self.model.statemachine
+                return None
             if self.model is None:
                 self.model = b.new_model(self.stored, self.state_field)
             if self.listeners is None:
@@ -118,11 +128,33 @@ class Impl:
             return self._run(lambda: self.sm.send(ev, *args, **kw))
         if style == "method":
             return self._run(lambda: getattr(self.sm, ev)(*args, **kw))
+        if style == "events_item":
+            return self._run(lambda: _pick(self.sm.events, ev)(*args, **kw))
+        if style == "allowed_item":
+            return self._run(lambda: _pick(self.sm.allowed_events, ev)(*args, **kw))
+        if style == "bound":
+            if getattr(self, "_bound", None) is None:
+                self._bound = _Plain()
+                self.sm.bind_events_to(self._bound)
+            return self._run(lambda: getattr(self._bound, ev)(*args, **kw))
+        if style == "mixin":
+            return self._run(lambda: getattr(self.sm.model, ev)(*args, **kw))
         raise AssertionError(style)
 
     @property
     def value(self):
         return getattr(self.sm.model, self.state_field, None)
+
+
+class _Plain:
+    pass
+
+
+def _pick(events, ev):
+    found = [e for e in events if e == ev]
+    if len(found) != 1:
+        raise AssertionError(f"event {ev!r} listed {len(found)} times in {[str(e) for e in events]}")
+    return found[0]
 
 
 def exc_equiv(e, o):
@@ -311,6 +343,10 @@ class Pair:
         exp = self.built.m.allowed(s.id)
         if al != exp:
             return f"allowed_events in {s.id}: expected {exp} observed {al}"
+        evs = [str(e) for e in sm.events]
+        want = self.built.m.all_events()
+        if sorted(evs) != sorted(want):
+            return f"events: expected {sorted(want)} observed {sorted(evs)}"
         return None
 
 
